@@ -1152,4 +1152,14 @@ theorem show_covers {c : DrawCfg} (hrw : RwOk c.rw) (hct : c.Plain) (hg : c.guar
     ∃ cs, (wd.step c .show).t.covered = cs ++ wd.t.covered ∧ ∀ p ∈ cs, wd.sw.s.cells.locked p.1 p.2 = false :=
   show_covers_c hrw hct.walk hg inv (CornerSafe.of_plain hct _) htr hsz
 
+/-- the side condition stated on the screen a Show (no size change) leaves is the side condition on the screen it starts from -/
+theorem cornerSafe_before_show {c : DrawCfg} {wd : World} (inv : WInv c wd)
+    (hsz : wd.sw.ttyw = wd.sw.s.w ∧ wd.sw.ttyh = wd.sw.s.h) (hsafe : CornerSafe c (wd.step c .show).sw.s) :
+    CornerSafe c wd.sw.s := by
+  have hfini := inv.fini
+  have hstep : (wd.step c .show).sw.s = (wd.sw.s.draw c).1 := by
+    simp only [World.step, ScrW.step, Scr.show, hfini, hsz, resize_same_size, and_self, if_true, Bool.false_eq_true, if_false]
+  rw [hstep] at hsafe
+  exact CornerSafe.of_draw hsafe
+
 end Tcell
